@@ -727,21 +727,8 @@ func init() {
 			if in == nil {
 				s.Unknown("handle/init", "-", "anchor (*SearchParams).init not found")
 			} else {
-				trunc := false
-				for _, ins := range in.Blocks[0].Instrs {
-					if st, ok := ins.(*ssa.Store); ok {
-						if fa, ok := fieldAddrOf(st.Addr, "SearchParams:params"); ok && fa.X == ssa.Value(in.Params[0]) {
-							if sl, ok := st.Val.(*ssa.Slice); ok && sl.High != nil {
-								if k, ok := sl.High.(*ssa.Const); ok && k.Value.ExactString() == "0" {
-									trunc = true
-								}
-							} else if isNilConst(st.Val) {
-								trunc = true
-							}
-						}
-					}
-				}
-				s.Check(trunc, "handle/init/truncate", c.P.Pos(in.Pos()), "init empties the list in its entry block, before any append", "init appends to whatever the list held before: parameters are duplicated on re-initialisation")
+				trunc := initStartsEmpty(in)
+				s.Check(trunc, "handle/init/truncate", c.P.Pos(in.Pos()), "every list init stores starts from an emptied one (params[:0], nil or a new empty slice, stored where it dominates the appends)", "init appends to whatever the list held before: parameters are duplicated on re-initialisation")
 			}
 		},
 	})
@@ -1210,4 +1197,105 @@ func guardedEdge(f *ssa.Function, owner ssa.Value, pb *ssa.BasicBlock, _ ssa.Val
 		}
 	}
 	return false
+}
+
+// initStartsEmpty: every value init stores into the list field of its receiver descends — through append and the
+// choices of a phi — from an empty list: nil, x[:0], make(T, 0, …), or the field itself read where a store of one of
+// those dominates the read.
+func initStartsEmpty(in *ssa.Function) bool {
+	recv := ssa.Value(in.Params[0])
+	type storeAt struct {
+		st  *ssa.Store
+		idx int
+	}
+	var stores []storeAt
+	for _, b := range in.Blocks {
+		for i, ins := range b.Instrs {
+			if st, ok := ins.(*ssa.Store); ok {
+				if fa, ok := fieldAddrOf(st.Addr, "SearchParams:params"); ok && fa.X == recv {
+					stores = append(stores, storeAt{st, i})
+				}
+			}
+		}
+	}
+	if len(stores) == 0 {
+		return false
+	}
+	emptyLeaf := func(v ssa.Value) bool {
+		switch x := v.(type) {
+		case *ssa.Const:
+			return x.IsNil()
+		case *ssa.Slice:
+			if k, ok := x.High.(*ssa.Const); ok && k.Value != nil && k.Value.ExactString() == "0" {
+				return true
+			}
+		case *ssa.MakeSlice:
+			if k, ok := x.Len.(*ssa.Const); ok && k.Value != nil && k.Value.ExactString() == "0" {
+				return true
+			}
+		}
+		return false
+	}
+	indexOf := func(ins ssa.Instruction) int {
+		for i, x := range ins.Block().Instrs {
+			if x == ins {
+				return i
+			}
+		}
+		return -1
+	}
+	truncBefore := func(ld *ssa.UnOp) bool {
+		for _, sa := range stores {
+			if !emptyLeaf(sa.st.Val) {
+				continue
+			}
+			if sa.st.Block() == ld.Block() {
+				if sa.idx < indexOf(ld) {
+					return true
+				}
+			} else if sa.st.Block().Dominates(ld.Block()) {
+				return true
+			}
+		}
+		return false
+	}
+	seen := map[ssa.Value]bool{}
+	var rooted func(v ssa.Value) bool
+	rooted = func(v ssa.Value) bool {
+		if emptyLeaf(v) {
+			return true
+		}
+		if seen[v] {
+			return true
+		}
+		seen[v] = true
+		switch x := v.(type) {
+		case *ssa.Call:
+			if bi, ok := x.Common().Value.(*ssa.Builtin); ok && bi.Name() == "append" && len(x.Common().Args) > 0 {
+				return rooted(x.Common().Args[0])
+			}
+		case *ssa.Phi:
+			for _, e := range x.Edges {
+				if !rooted(e) {
+					return false
+				}
+			}
+			return len(x.Edges) > 0
+		case *ssa.Slice:
+			return rooted(x.X)
+		case *ssa.UnOp:
+			if x.Op == token.MUL {
+				if fa, ok := fieldAddrOf(x.X, "SearchParams:params"); ok && fa.X == recv {
+					return truncBefore(x)
+				}
+			}
+		}
+		return false
+	}
+	for _, sa := range stores {
+		if !rooted(sa.st.Val) {
+			return false
+		}
+	}
+	return true
 }
